@@ -1,5 +1,6 @@
 import PynguinModel.Lemmas.SubprocessAlign
 import PynguinModel.Lemmas.SubprocessConfig
+import PynguinModel.Lemmas.SubprocessPickle
 /-!
 # C31 — in-process and subprocess execution agree
 
@@ -38,6 +39,18 @@ executor of `_fallback_on_failure`, the watchdog bound of `TestCaseExecutor.exec
                                      from the shipped tuple; the time-out flag of a test that runs
                                      `dur` ms is decided by the same bound on both sides
 * `swapped_time_settings_cex`    — non-vacuity: the two numbers are not interchangeable
+
+Value round trips (model `Model/SubprocessPickle.lean`: `dill.detect.pickles/badobjects/baditems`, the two
+probes of `_fix_result_for_pickle` computed from what `dill.copy` does to every single item):
+
+* `value_round_trip_kept`          — after the rewriting an exception / assertion is still there iff it
+                                     pickles (for either value of `exact`)
+* `projection_transport_values`    — as the code calls `baditems` (no `exact`): items whose copy has the same
+                                     type, equal OR NOT (NaN is not equal to its copy), are all kept, the
+                                     compared projection is unchanged
+* `subprocess_agrees_values`       — agreement with the picklability hypothesis stated on value round trips
+* `exact_filter_drops_nan_cex`     — non-vacuity: with `exact=True` for the assertion probe a
+                                     `FloatAssertion(var_1, nan)` is dropped, the projection changes
 -/
 namespace PynguinModel.SubprocessAlign
 
@@ -605,6 +618,81 @@ example : (match executeMultiple (τ := Nat)
         (fun _ => .none)) (fun _ => [(0, "var_0")]) [0, 1] with
     | .ok out => out.map (·.timeout)
     | .error _ => []) = [false, true] := by
+  decide
+
+/-! ## Value round trips: what the pickle-safe rewriting keeps -/
+
+/-- `value_round_trip_kept`: with the probes computed by `dill.detect.baditems` from the round trip of every
+single item, `_fix_result_for_pickle` keeps exactly the exceptions and assertions that pickle (in order, at
+their positions), whatever the `exact` flags are. -/
+theorem value_round_trip_kept (xe xa : Bool) (tr : Trips) (r : Res) :
+    (fixForPickle (probesOf xe xa tr r) r).excs = r.excs.filter (fun x => pickles xe (tr.exc x.1)) ∧
+    (fixForPickle (probesOf xe xa tr r) r).trace =
+      r.trace.map (fun e => (e.1, e.2.filter (fun a => pickles xa (tr.asrt a)))) :=
+  ⟨filterExcs_badItems xe tr.exc r.excs, filterTrace_badItems xa tr.asrt r.trace⟩
+
+/-- `projection_transport_values`: the picklability hypothesis of `projection_transport`, stated on values.
+The code passes no `exact=` to `baditems`; then every exception and every assertion whose pickled copy has
+the same type — equal to the original or not, as for a value that is not equal to itself (NaN) — is kept:
+both probes are clean and the compared projection (and the whole trace) is unchanged. -/
+theorem projection_transport_values (tr : Trips) (r : Res)
+    (he : ∀ x ∈ r.excs, tr.exc x.1 = .equal ∨ tr.exc x.1 = .sameType)
+    (ha : ∀ e ∈ r.trace, ∀ a ∈ e.2, tr.asrt a = .equal ∨ tr.asrt a = .sameType) :
+    (probesOf codeExact codeExact tr r).clean = true ∧
+    proj (fixForPickleRT tr r) = proj r ∧ (fixForPickleRT tr r).trace = r.trace := by
+  have h1 : badItems codeExact tr.exc (r.excs.map (·.1)) = [] := by
+    apply badItems_eq_nil
+    intro p hp
+    obtain ⟨x, hx, rfl⟩ := List.mem_map.mp hp
+    rcases he x hx with h | h <;> simp [h, pickles, codeExact]
+  have h2 : badItems codeExact tr.asrt (allAssertions r.trace) = [] := by
+    apply badItems_eq_nil
+    intro a hm
+    obtain ⟨e, he', hae⟩ := (mem_allAssertions r.trace a).mp hm
+    rcases ha e he' a hae with h | h <;> simp [h, pickles, codeExact]
+  have hc : (probesOf codeExact codeExact tr r).clean = true := by
+    simp [probesOf, Probes.clean, Probe.clean, h1, h2]
+  exact ⟨hc, (projection_transport _ r).2.2.2.2.2.2 hc⟩
+
+/-- `subprocess_agrees_values`: `subprocess_agrees_partial` with the child's probes computed from the value
+round trips: if every exception and assertion of the in-process results comes back from `dill.copy` with its
+type (equal or not), then for every crash pattern the subprocess executor agrees with the in-process one. -/
+theorem subprocess_agrees_values (crash : List τ → Crash) (run : τ → Res) (trips : τ → Trips)
+    (bind : τ → Bindings) (tests : List τ)
+    (he : ∀ t ∈ tests, ∀ x ∈ (run t).excs, (trips t).exc x.1 = .equal ∨ (trips t).exc x.1 = .sameType)
+    (ha : ∀ t ∈ tests, ∀ e ∈ (run t).trace, ∀ a ∈ e.2,
+      (trips t).asrt a = .equal ∨ (trips t).asrt a = .sameType)
+    (hwf : ∀ t ∈ tests, WF (run t).trace)
+    (hb : ∀ t ∈ tests, ((bind t).map (·.1)).Nodup) :
+    AgreesOn crash run (fun t => probesOf codeExact codeExact (trips t) (run t)) bind tests :=
+  subprocess_agrees_partial crash run _ bind tests
+    (fun t ht => (projection_transport_values (trips t) (run t) (he t ht) (ha t ht)).1) hwf hb
+
+/-- `var_0 = []; var_1 = m_.Summary(var_0)`: the mean of nothing is NaN. -/
+def nanRes : Res :=
+  { timeoutRes with
+    timeout := false,
+    trace := [(0, [⟨"Object", some "var_0", "[]"⟩]),
+              (1, [⟨"IsInstance", some "var_1", "m.Summary"⟩, ⟨"Object", some "var_1.count", "0"⟩,
+                   ⟨"Float", some "var_1.mean", "nan"⟩])] }
+
+/-- Every item pickles; the copy of a NaN observation has the same type but is not equal to the original. -/
+def nanTrips : Trips :=
+  { exc := fun _ => .equal, asrt := fun a => if a.payload = "nan" then .sameType else .equal, aux := fun a => a }
+
+example : (∀ x ∈ nanRes.excs, nanTrips.exc x.1 = .equal ∨ nanTrips.exc x.1 = .sameType) ∧
+    (∀ e ∈ nanRes.trace, ∀ a ∈ e.2, nanTrips.asrt a = .equal ∨ nanTrips.asrt a = .sameType) := by
+  decide
+
+/-- `exact_filter_drops_nan_cex`: the default (`exact=False`) matters.  With `exact=True` for the assertion
+probe the NaN observation is classified unpicklable and removed inside the child: the compared projection
+of the subprocess result lacks `FloatAssertion(var_1.mean, nan)`. -/
+theorem exact_filter_drops_nan_cex :
+    proj (fixForPickle (probesOf codeExact codeExact nanTrips nanRes) nanRes) = proj nanRes ∧
+    proj (fixForPickle (probesOf codeExact true nanTrips nanRes) nanRes) ≠ proj nanRes ∧
+    (fixForPickle (probesOf codeExact true nanTrips nanRes) nanRes).trace =
+      [(0, [⟨"Object", some "var_0", "[]"⟩]),
+       (1, [⟨"IsInstance", some "var_1", "m.Summary"⟩, ⟨"Object", some "var_1.count", "0"⟩])] := by
   decide
 
 end PynguinModel.SubprocessAlign
